@@ -53,7 +53,7 @@ func main() {
 		os.Exit(2)
 	}
 	if job.MaxSteps == 0 {
-		job.MaxSteps = 2000
+		job.MaxSteps = 600
 	}
 	obs.LabelHook = vsched.SetLabel
 	rf, err := os.Create(os.Args[2])
